@@ -167,7 +167,13 @@ pub fn explore_adaptive(
 pub fn check_c10_c11(prop: &str, case: &Case, plan: &AsyncPlan, order: (usize, u64, u32), acc: &mut Acc) {
     set_call(json!({"fn": "c10_c11", "prop": prop, "plan": plan}));
     // the same oracle serves C20 (cache use from inside sort_candidates during a solve, under every completion order)
-    let label = if prop == "C20" { "C20" } else { "C10" };
+    let label = match prop {
+        "C20" => "C20",
+        "C04" => "C04",
+        _ => "C10",
+    };
+    // C04 only judges termination without panicking (verdicts and request counts are C10's business)
+    let termination_only = prop == "C04";
     let sem = Sem::new(&case.u, &case.p);
     let mut sync_cfg = RunCfg::default();
     sync_cfg.hint_override = plan.hint.clone();
@@ -192,6 +198,7 @@ pub fn check_c10_c11(prop: &str, case: &Case, plan: &AsyncPlan, order: (usize, u
                 Outcome::Horizon => acc.violation(viol(label, "livelock", "poll horizon exceeded".into(), case, detail(), order)),
                 Outcome::Panic(p) => acc.violation(viol(label, &format!("panic:{}:{}", p.site, p.msg), format!("async solve panicked at {}: {}", p.site, p.msg), case, detail(), order)),
                 Outcome::Cancelled(_) => acc.violation(viol(label, "spurious-cancel", "Cancelled without request".into(), case, detail(), order)),
+                Outcome::Ok(_) | Outcome::Unsat if termination_only => {}
                 Outcome::Ok(sol) => {
                     if !reference.outcome.is_ok() {
                         acc.violation(viol(label, "verdict-differs", format!("sync run says {}, this schedule says {}", reference.outcome.short(), res.outcome.short()), case, detail(), order));
@@ -207,7 +214,9 @@ pub fn check_c10_c11(prop: &str, case: &Case, plan: &AsyncPlan, order: (usize, u
                     }
                 }
             }
-            if let Some(d) = dup_requests(&res.log) {
+            if termination_only {
+                // nothing else
+            } else if let Some(d) = dup_requests(&res.log) {
                 acc.violation(viol(label, "duplicate-request", d, case, detail(), order));
             }
         } else {
